@@ -90,7 +90,7 @@ def gen_arrivals(rng, n, horizon_ms):
     return out
 
 
-def run_connection(arrivals, seed, shuffle, jitter, horizon_s, misaddr_from=None):
+def run_connection(arrivals, seed, shuffle, jitter, horizon_s, misaddr_from=None, slow_client_ms=0):
     """start the REAL consumer task set (GeckoAsyncSpa._connect on a fake endpoint with nobody answering requests), inject arrivals"""
     from geckolib.async_spa import GeckoAsyncSpa
     from geckolib.async_tasks import AsyncTasks
@@ -102,6 +102,8 @@ def run_connection(arrivals, seed, shuffle, jitter, horizon_s, misaddr_from=None
 
         async def on_event(ev, **kw):
             events.append((tr.ms(), str(ev)))
+            if slow_client_ms and ("RF_ERROR" in str(ev) or "WATER_CARE_ERROR" in str(ev)):
+                await asyncio.sleep(slow_client_ms / 1000.0)     # a client whose handler takes its time (the RFErr / WCErr consumers await it)
         with rig.instrument(tr):
             taskman = AsyncTasks()
             spa = GeckoAsyncSpa(CLIENT, rig.Desc(), taskman, on_event)
@@ -121,6 +123,8 @@ def run_connection(arrivals, seed, shuffle, jitter, horizon_s, misaddr_from=None
             await asyncio.sleep(horizon_s)
             res["block"] = spa.struct.status_block
             res["queued_at_end"] = spa._protocol.queue.qsize() if spa._protocol else -1
+            res["dead_consumers"] = sorted(f"{t_.get_name()}: {type(t_.exception()).__name__}" for t_ in taskman._tasks
+                                           if t_.get_name().startswith("SPA:") and t_.done() and not t_.cancelled() and t_.exception() is not None)
             for t in [ct, ft]:
                 t.cancel()
             taskman.cancel_key_tasks("SPA")
@@ -342,9 +346,12 @@ def run(ctx):
         fair = r % 3 != 2            # every third run uses timer jitter (= stalls): safety clauses only
         seed = rng.randrange(1 << 30)
         arrivals = gen_arrivals(rng, 60 if ctx.quick else 120, 9000)
+        slow = [0, 250, 0, 120][r % 4]
         inp = {"seed": seed, "fair": fair, "arrivals": [(ms, hx(d), lab) for ms, d, lab in arrivals][:200]}
+        if slow:
+            inp["slow_client_ms"] = slow
         try:
-            res = run_connection(arrivals, seed, shuffle=True, jitter=0.0 if fair else 0.03, horizon_s=11.0)
+            res = run_connection(arrivals, seed, shuffle=True, jitter=0.0 if fair else 0.03, horizon_s=11.0, slow_client_ms=slow)
         except Exception as e:  # noqa
             ctx.violation("connection-raised", inp, "the connection task set runs", f"{type(e).__name__}: {e}")
             continue
@@ -377,6 +384,13 @@ def run(ctx):
             # only a violation if explained by a mis-addressed packet having had an effect: the mis-addressed ones write position 0x10
             if res["block"][0x10:0x12] == b"\xaa\xbb":
                 ctx.violation("misaddressed-effect", inp, "mis-addressed packets have no effect on the client's block", "block changed at 0x10")
+        # (a BARE `STATP..` datagram - never on the real wire, where it travels framed - makes the partial-update consumer build its
+        #  acknowledgement from a 2-tuple sender and die with IndexError: outside this property's traffic, noted in DESIGN.md)
+        bare_statp = any(lab == "inner-statp" for _, _, lab in arrivals)
+        dead = [d for d in res.get("dead_consumers", []) if not (bare_statp and d.startswith("SPA:Partial status block handler: IndexError"))]
+        if dead:
+            ctx.violation("consumer-died:" + dead[0].split(": ")[1], inp,
+                          "every consumer task of the connection survives well-formed traffic", dead)
         # conservation of re-queued content: the packet consumer re-queues (put with the 4-tuple parms) exactly the DATAS of each
         # well-formed frame addressed from this spa to this client, once each, in arrival order - nothing for any other datagram
         exp_rq = []
@@ -458,6 +472,6 @@ def replay(inp):
         want = [m.group(3)] if ok else []
         return new != want, {"requeued_by_last_datagram": [hx(x) if x is not None else None for x in new], "expected": [hx(x) for x in want]}
     arrivals = [(ms, bytes.fromhex(d) if d != "-" else b"", lab) for ms, d, lab in inp["arrivals"]]
-    res = run_connection(arrivals, inp["seed"], shuffle=True, jitter=0.0 if inp["fair"] else 0.03, horizon_s=11.0)
+    res = run_connection(arrivals, inp["seed"], shuffle=True, jitter=0.0 if inp["fair"] else 0.03, horizon_s=11.0, slow_client_ms=inp.get("slow_client_ms", 0))
     monitors(ctx, res["trace"], res, handler_classes(), inp["fair"], inp)
     return bool(ctx.violations), ctx.violations[0]["observed"] if ctx.violations else "trace satisfies the monitors"
